@@ -11,7 +11,7 @@ PROP = "C07"
 LEVEL = "other"
 MODULE = "PropC07"
 THEOREMS = ["C07_expression_round_trip", "C07_redundant_parentheses", "C07_every_operand_position",
-            "C07_string_literal_round_trip"]
+            "C07_string_literal_round_trip", "C07_statement_round_trip", "C07_body_round_trip", "C07_program_round_trip"]
 IMPORTS = ["Base", "Bytecode", "Value", "FloatText", "Ast", "Lexer", "Grammar", "Printer", "CorrParse"]
 
 STYLES = [
